@@ -2,7 +2,7 @@
    parameterised by the SDK flavour and the language interpreter. *)
 From Coq Require Import List Bool Arith NArith.
 From Coq Require Import Strings.Byte Strings.String.
-From Minidyn Require Import Base.Str Base.FMap Base.Outcome Model.Value Model.Key Model.Index Model.Table.
+From Minidyn Require Import Base.Str Base.FMap Base.Outcome Model.Value Model.Key Model.Index Model.Table Model.Token Gen.Tables.
 Import ListNotations.
 
 Definition tbl := Table.table.
@@ -411,7 +411,8 @@ Definition scan_op (c : client) (table : str) (index : option str) (filter : opt
 
 Definition wreq_ok (r : wreq) : bool := match r with WPut _ | WDelete _ => true | _ => false end.
 
-Definition batch_limit : nat := 25.
+(* batchRequestsLimit, read from the sources by the translator (both clients; see Proofs/Restrictions.v) *)
+Definition batch_limit : nat := batch_limit_v2.
 
 (* one request of a batch write: (client, None) = applied, (client, Some None) = unprocessed, Some (Some e) = abort *)
 Definition batch_write_one (c : client) (table : str) (r : wreq) : client * option (option obs) :=
@@ -551,8 +552,10 @@ Definition step (c : client) (o : op) : client * obs :=
       end
   | OEmulateFailure cond =>
       ({| c_tables := c_tables c; c_billing := c_billing c;
-          c_failure := if str_eqb cond (bs "internal_server") then Some FInternal
-                       else if str_eqb cond (bs "deprecated") then Some FDeprecated else None;
+          c_failure := match assoc cond (match flavour with V1 => emulating_errors_v1 | V2 => emulating_errors_v2 end) with
+                       | Some f => f
+                       | None => None
+                       end;
           c_native := c_native c; c_reg := c_reg c |}, ok_obs PNone [])
   | OActivateForce =>
       ({| c_tables := c_tables c; c_billing := c_billing c; c_failure := Some FDeprecated;
